@@ -94,6 +94,7 @@ type lockWait struct {
 }
 
 type lockAnalysis struct {
+	wgAdds       []lockAccess // Add on a WaitGroup field of the tracked structs, with the locks certainly held
 	atomicWrites []lockAccess // Store / Swap / CompareAndSwap / Add on atomic fields of the tracked structs, with the locks certainly held
 	nbComm            map[token.Pos]bool // receive / send expressions that are cases of a select with a default clause
 	noEdges, noAccess bool // walking a deferred literal at its defer statement (accesses only) / at a return (edges only)
@@ -321,6 +322,10 @@ func (w *walker) call(c *ast.CallExpr, st lockState, deferred bool) {
 		case "Store", "Swap", "CompareAndSwap", "Add":
 			if inner, ok := sel.X.(*ast.SelectorExpr); ok {
 				if s := w.la.typeOf(inner.X, w.env); s != "" {
+					if t, isField := w.la.fields[s][inner.Sel.Name]; isField && t == "sync.WaitGroup" && sel.Sel.Name == "Add" {
+						w.la.wgAdds = append(w.la.wgAdds, lockAccess{Struct: s, Field: inner.Sel.Name, Func: w.fn, Write: true,
+							Held: st[s], InGo: w.inGo, Line: w.la.p.fset.Position(c.Pos()).Line, File: shortFile(w.la.p.fset.Position(c.Pos()).Filename)})
+					}
 					if t, isField := w.la.fields[s][inner.Sel.Name]; isField && strings.HasPrefix(t, "atomic.") {
 						w.la.atomicWrites = append(w.la.atomicWrites, lockAccess{Struct: s, Field: inner.Sel.Name, Func: w.fn, Write: true,
 							Held: st[s], InGo: w.inGo, Line: w.la.p.fset.Position(c.Pos()).Line, File: shortFile(w.la.p.fset.Position(c.Pos()).Filename)})
@@ -715,6 +720,7 @@ func genLocks(p *pkgInfo, out string) {
 		la.record = record
 		la.accesses = nil
 		la.atomicWrites = nil
+		la.wgAdds = nil
 		la.edges = nil
 		la.waits = nil
 		la.callSeen = map[string][]lockState{}
@@ -796,6 +802,7 @@ func genLocks(p *pkgInfo, out string) {
 	run(true)
 	must := la.accesses
 	mustAtomic := la.atomicWrites
+	mustWg := la.wgAdds
 
 	// second pass: which locks are *possibly* held (union at joins, entry = union over call sites)
 	mayMode = true
@@ -908,6 +915,26 @@ func genLocks(p *pkgInfo, out string) {
 		r := fmt.Sprintf("  (%s, %s, %s, %s, %d)", leanStr(e.Kind), leanStr(e.What), leanStr(e.Held), leanStr(e.Func), e.Line)
 		if !seenE[r] {
 			seenE[r] = true
+			rows = append(rows, r)
+		}
+	}
+	b.WriteString(strings.Join(rows, ",\n"))
+	b.WriteString("]\n\n")
+	b.WriteString("/-- Every `Add` on a WaitGroup of the three structs: (struct.field, function, lock of that struct certainly held: 0 none / 1 shared / 2 exclusive, inside a `go` closure). -/\n")
+	b.WriteString("def wgAdds : List (String × String × Nat × Bool) := [\n")
+	rows = nil
+	sort.SliceStable(mustWg, func(i, j int) bool {
+		a, c := mustWg[i], mustWg[j]
+		if a.File != c.File {
+			return a.File < c.File
+		}
+		return a.Line < c.Line
+	})
+	seenW := map[string]bool{}
+	for _, a := range mustWg {
+		r := fmt.Sprintf("  (%s, %s, %d, %v)", leanStr(a.Struct+"."+a.Field), leanStr(a.Func), a.Held, a.InGo)
+		if !seenW[r] {
+			seenW[r] = true
 			rows = append(rows, r)
 		}
 	}
